@@ -10,8 +10,11 @@ from . import build as B
 
 VERIF = B.VERIF
 KNOWN = os.path.join(VERIF, "known_findings.jsonl")
-EVID = os.path.join(VERIF, "evidence")
-REPLAY = os.path.join(VERIF, "replay")
+# Evidence and replay files of a run against a scratch tree (VERIF_REPO=<worktree with a seeded change>) must not overwrite
+# the evidence of /repo itself: they go under the build directory.
+_SCRATCH = os.path.realpath(B.REPO) != "/repo"
+EVID = os.path.join(B.BUILD, "scratch_evidence") if _SCRATCH else os.path.join(VERIF, "evidence")
+REPLAY = os.path.join(B.BUILD, "scratch_replay") if _SCRATCH else os.path.join(VERIF, "replay")
 
 LEVEL = "exploration"
 
@@ -141,6 +144,7 @@ class Ctx:
                 print("INCONCLUSIVE property=%s evidence does not validate: %s" % (self.pid, str(e)[:300]))
                 if rc == 0:
                     rc = 2
+            os.makedirs(EVID, exist_ok=True)
             with open(os.path.join(EVID, self.pid + ".json"), "w") as f:
                 json.dump(ev, f, indent=1, default=str)
                 f.write("\n")
